@@ -19,6 +19,10 @@ def _init():
     if "reg" not in _STATE:
         _STATE["reg"] = registry.build()
         _STATE["loader"] = registry.make_loader()
+        # ordering hints only (which back end to ask first); they never change a verdict
+        from pyvc import interp
+        for u in load_baseline().values():
+            interp._PREFER.update(u.get("backend_hints", {}))
     return _STATE["reg"], _STATE["loader"]
 
 
@@ -275,8 +279,13 @@ def write_baseline(properties):
             bad += 1
             continue
         agg = aggregate(r["obligations"])
+        hints = {}
+        for o in r["obligations"]:
+            if o["status"] == "proved" and o["backend"] in ("cvc5", "z3-ematch"):
+                hints[o["name"]] = o["backend"]
         out[r["unit"]] = {"clauses": {k: v["status"] for k, v in sorted(agg.items()) if v["status"] == "proved"},
-                          "paths": r["paths"], "obligations": len(r["obligations"])}
+                          "paths": r["paths"], "obligations": len(r["obligations"]),
+                          "backend_hints": hints}
         notp = [k for k, v in agg.items() if v["status"] != "proved"]
         print("%-60s %3d clauses proved, %d not proved%s" % (r["unit"], len(out[r["unit"]]["clauses"]), len(notp),
                                                              ("  DEMOTED " + r["demoted"][:80]) if r["demoted"] else ""))
